@@ -1,7 +1,7 @@
 HOOK_COMMITS = ["d5fe92d", "HEAD~0 (see git log --grep='verif hooks' in /repo)"]
 
 ENGINES = [
-    {"name": "kgx", "path": "harness/kgx", "serves_properties": ["C10"], "kind_free_text": "in-process keep-going BuildSystemFrontend runner: failing-subset x flag x failure-kind enumeration with recorded failures"},
+    {"name": "kgx", "path": "harness/kgx", "serves_properties": ["C10", "C05", "C12"], "kind_free_text": "in-process keep-going BuildSystemFrontend runner: failing-subset x flag x failure-kind enumeration with recorded failures"},
     {"name": "worldx2", "path": "harness/worldx2", "serves_properties": ["C12", "C11"], "kind_free_text": "directory-tree shape x edit explorer and discovered-dependency history explorer on top of worldx"},
     {"name": "worldx3", "path": "harness/worldx3", "serves_properties": ["C18", "C04", "C11"], "kind_free_text": "Ninja manifest family x edit-history explorer through `llbuild ninja build` on top of worldx"},
     {"name": "stalex", "path": "harness/stalex", "serves_properties": ["C14"], "kind_free_text": "in-process stale-file-removal runner with recording file system, exhaustive list/roots triples"},
@@ -127,7 +127,9 @@ TEXT.update({
                     "retype, content change of same/different size, mtime-only, chmod, symlink retarget) at every position, all pairs of edits on the small shapes, chained "
                     "build-edit-build-edit-build histories, for a directory-tree and a directory-structure input, without filter, with `*.x` and with an exact-name exclusion: the consuming command "
                     "re-executes iff the filter-visible listing (tree) resp. names/types (structure) changed; excluded names are invisible both ways; nothing changed => nothing runs.",
-            "note": "Compound edits that restore the structure, chmod and a directory's own mtime are enumerated but not asserted (statement silent)."},
+            "note": "Compound edits that restore the structure, chmod and a directory's own mtime are enumerated but not asserted (statement silent). Second part (kgx --prop C12): a long-lived client - ONE "
+                    "BuildSystemFrontend runs a first build and one build after every edit of every word of <= 4 (5) edits over {nothing, rewrite / add / remove a name hidden by the exclusion patterns, rewrite a "
+                    "visible file at depth 1 / 2, add a visible file} on a directory-tree and a directory-structure input with content-exclusion-patterns: the consumers re-run exactly when a visible name changed."},
     "C18": {"design_ref": "DESIGN.md §5 C18",
             "technique": "bounded-exhaustive exploration of edit histories through `llbuild ninja build` (new process per build) against a reference evaluator cross-checked with clean builds",
             "text": "13 (26) Ninja manifest families with 3-7 variants each (explicit/implicit/order-only inputs, multiple outputs, phony, depfile, restat, generator, generator with depfile, consumer declared before its phony/restat producers, pool): every history up to "
@@ -146,7 +148,7 @@ TEXT.update({
             "text": "All 1.86M (477M thorough) absolute (path, root) pairs over {'/','a','b','.'} up to length 6 (8) are passed to the real pathIsPrefixedByPath and "
                     "compared with a split-on-separator, drop-empty-components prefix test.",
             "note": "Second part (stalex): every (previous list, current list, roots) triple with lists of <=2 paths from a 12-path alphabet and <=2 roots from 6 is run in process "
-                    "through a real BuildSystem + SQLite database with a recording file system (new BuildSystem per run = restart); the set of remove() calls must equal the reference, nothing else may be touched; all three-list histories (13 x 79 x 13 quick, 13 x 79 x 79 thorough) judged at the third run; real-tmpfs subtree removal."},
+                    "through a real BuildSystem + SQLite database with a recording file system (new BuildSystem per run = restart); the set of remove() calls must equal the reference, nothing else may be touched; all three-list histories (13 x 79 x 13 quick, 13 x 79 x 79 thorough) judged at the third run; real-tmpfs subtree removal; a link flavour of the world; and the two-list histories once more with every '/' of the description written as the YAML escape (every list element has to be unescaped by the description parser)."},
     "C15": {"design_ref": "DESIGN.md §5 C15",
             "technique": "exhaustive enumeration of keys/values of every kind over a byte alphabet; round-trip, canonicity and global injectivity oracles",
             "text": "All 9 key kinds x names up to length 3 (4) over {'a','/',NUL,0xFF} x filter lists, all 18 value kinds x 0..3 outputs x FileInfo fields in "
@@ -160,12 +162,12 @@ TEXT.update({
                     "submitted from inside a job, then destruction; every schedule with at most 2 (3) preemptions / early timer firings (1 (2) for the canceller "
                     "bodies) is executed: every job exactly once before the destructor returns, in-flight <= lanes, started/finished paired, no deadlock or lost wake-up, no thread left blocked.",
             "note": "Subprocess half (procx): every exit code 0..255, 8 fatal signals, 8 output-size classes (position-coded bytes), early close, lane release over the control fd, spawn errors, "
-                    "environment precedence cases and cancellation placements through the real queues' executeProcess: completion exactly once after the last output, status mapping, no zombie. "
+                    "environment precedence cases, signals without SA_RESTART interrupting the lane thread's wait for a lingering child, and cancellation placements through the real queues' executeProcess: completion exactly once after the last output, status mapping, no zombie. "
                     "Kernel scheduling of the children is not controlled. tsanx: the same thread bodies free-running under ThreadSanitizer (sampling, supplementary)."},
     "C17": {"design_ref": "DESIGN.md §5 C17",
             "technique": "bounded-exhaustive differential testing against the reference implementation /usr/bin/ninja 1.11.1",
             "text": "Every manifest with at most 2 (3) non-default features out of a 27-dimension grammar (path flavours incl. non-ASCII bytes, input classes, "
-                    "build/rule/file-level bindings, nested references, commands referring to $depfile/$rspfile, include/subninja, continuations, CRLF, comments, keyword-like identifiers) is loaded by "
+                    "build/rule/file-level bindings, nested references, commands referring to $depfile/$rspfile, include/subninja (7 child-file kinds incl. a binding that refers to the inherited value of the same name), continuations, CRLF, comments, keyword-like identifiers) is loaded by "
                     "both tools; outputs, the three input classes, expanded command, description, depfile, rspfile and rspfile_content of every build statement must agree; "
                     "all strings up to length 4 over a shell-special alphabet must survive shellEscaped + /bin/sh.",
             "note": "Trusted base: ninja 1.11.1 as the definition of Ninja's evaluation rules; manifests ninja rejects are skipped."},
